@@ -1,4 +1,12 @@
-"""C06 — implicit-conversion safety surface is total and as documented (program-space grid)."""
+"""C06 — implicit-conversion safety surface is total and as documented (program-space grid).
+
+Cells   = (U1,R1,U2,R2): traits (is_convertible/is_constructible/is_assignable, cv/ref sources, overload
+          pick against an ellipsis and against a second Quantity overload, std::common_type) in dump
+          TUs that must compile (totality); every permitted cell also *performs* the conversion
+          (integral targets: value sweep against x*k in __int128; floating targets: one conversion).
+Probes  = unit-only .as/.in (unit, maker, symbol, constant slots) and every mixed-unit operator /
+          comparison-based function, accept/reject against the documented predicate.
+"""
 import os
 from fractions import Fraction as Fr
 
@@ -24,8 +32,54 @@ struct PtA : decltype(au::Kelvins{} * au::mag<3>() / au::mag<7>()) {
 struct PtB : au::Kelvins {
     static constexpr auto origin() { return (au::kelvins / au::mag<6>())(-7); }  // -7/6 K
 };
+// two competing Quantity overloads: 1 = first, 2 = second, 0 = the call is ill-formed (none viable / ambiguous)
+template <typename A, typename B> char (&pick2(A))[1];
+template <typename A, typename B> char (&pick2(B))[2];
+template <typename From, typename A, typename B, typename = void> struct Pick2 { static constexpr int value = 0; };
+template <typename From, typename A, typename B>
+struct Pick2<From, A, B, vf::void_t<decltype(pick2<A, B>(std::declval<From>()))>> {
+    static constexpr int value = sizeof(pick2<A, B>(std::declval<From>()));
+};
+// named generated unit: 20 ft (between the int16_t threshold 15 and the uint16_t threshold 30)
+struct Score : decltype(au::Feet{} * au::mag<20>()) {};
+typedef __int128 i128;
+inline std::string i128s(i128 v) {
+    if (v == 0) return "0";
+    bool neg = v < 0; std::string s;
+    unsigned __int128 u = neg ? -static_cast<unsigned __int128>(v) : static_cast<unsigned __int128>(v);
+    while (u) { s.insert(s.begin(), static_cast<char>('0' + static_cast<int>(u % 10))); u /= 10; }
+    return neg ? "-" + s : s;
+}
+// value oracle for a permitted integral conversion Quantity<U1,R1> -> Q2 = Quantity<U2,R2>: exactly x*kk (in __int128)
+template <typename Q2, typename U1, typename R1>
+struct Val {
+    static constexpr bool one(R1 x, i128 kk) {
+        Q2 q2 = au::make_quantity<U1>(x);
+        return static_cast<i128>(q2.in(typename Q2::Unit{})) == static_cast<i128>(x) * kk;
+    }
+    // every x in [-2147,2147], the neighbourhoods of both ends of [lo,hi] (= all inputs that do not overflow),
+    // of their halves/thirds, and the lattice +-2^j + {-1,0,1}
+    static void sweep(i128 lo, i128 hi, i128 kk, long long &n, long long &bad, i128 &first) {
+        auto t = [&](i128 x) {
+            if (x < lo || x > hi) return;
+            ++n;
+            if (!one(static_cast<R1>(x), kk)) { if (!bad) first = x; ++bad; }
+        };
+        for (i128 x = (lo > -2147 ? lo : i128(-2147)); x <= (hi < 2147 ? hi : i128(2147)); ++x) t(x);
+        for (int d = -2; d <= 2; ++d) { t(lo + d); t(hi + d); t(lo / 2 + d); t(hi / 2 + d); t(lo / 3 + d); t(hi / 3 + d); }
+        for (int j = 11; j <= 64; ++j) for (int d = -1; d <= 1; ++d) { t((i128(1) << j) + d); t(-(i128(1) << j) + d); }
+    }
+};
 }
 '''
+
+# long long / unsigned long long are distinct types from int64_t / uint64_t on LP64 (same width)
+ALIAS = {"long long": "int64_t", "unsigned long long": "uint64_t"}
+XL = list(ALIAS)
+
+
+def canon(r):
+    return ALIAS.get(r, r)
 
 
 def mag_expr(m):
@@ -48,6 +102,7 @@ def src_unit(m):
 
 def policy(r1, r2, k):
     """The documented predicate. k: model magnitude of U1/U2."""
+    r1, r2 = canon(r1), canon(r2)
     if r2 in F3:
         return True
     if r1 in F3:
@@ -78,7 +133,8 @@ def ratio_grid(tier):
     out = [("1", {})]
     for k in sorted(ints):
         out.append((str(k), model.mag_int(k)))
-    recips = sorted(ints) if tier == "thorough" else [2, 1000, 10 ** 9, tmax("int32_t") // 2147 + 1, 10 ** 30]
+    recips = sorted(ints) if tier == "thorough" else [2, 1000, 10 ** 9, tmax("int32_t") // 2147 + 1, 10 ** 30,
+                                                      tmax("int64_t") // 2147 + 1, tmax("uint64_t") // 2147 + 1]
     for k in recips:
         out.append(("1/%d" % k, model.mag_ratio(1, k)))
     out += [("3/2", model.mag_ratio(3, 2)), ("2/3", model.mag_ratio(2, 3)), ("pi", dict(model.MAG_PI)),
@@ -87,13 +143,180 @@ def ratio_grid(tier):
     return out
 
 
+def extreme_grid(tier):
+    """Factors outside the range of float / double / long double (and their reciprocals)."""
+    ten = model.mag_int(10)
+    out = [("10^40", model.vpow(ten, 40)), ("1/10^46", model.vpow(ten, -46)), ("10^310", model.vpow(ten, 310)),
+           ("10^5000", model.vpow(ten, 5000)), ("1/10^5000", model.vpow(ten, -5000))]
+    if tier == "thorough":
+        out += [("1/10^330", model.vpow(ten, -330)), ("2^16384", {2: Fr(16384)}), ("3*10^38", model.vmul(model.mag_int(3), model.vpow(ten, 38))),
+                ("4*10^38", model.vmul(model.mag_int(4), model.vpow(ten, 38)))]
+    return out
+
+
+# ---- floating-point range model (IEEE binary32 / binary64 / x87 extended), independent of Au
+FMAX = {"float": Fr(2 ** 128 - 2 ** 104), "double": Fr(2 ** 1024 - 2 ** 971), "long double": Fr(2 ** 16384 - 2 ** 16320)}
+FDEN = {"float": Fr(1, 2 ** 149), "double": Fr(1, 2 ** 1074), "long double": Fr(1, 2 ** 16445)}
+FMIN = {"float": Fr(1, 2 ** 126), "double": Fr(1, 2 ** 1022), "long double": Fr(1, 2 ** 16382)}
+
+
+def float_status(c, k):
+    """Can the factor k be applied in the floating type c?  'in' (representable: the conversion must compile),
+    'outside' (integer or 1/integer beyond max(c), or a ratio beyond max / below the smallest denormal),
+    'band' (representable only as a denormal, or a part exceeds long double: not judged)."""
+    if isinstance(k, Fr):
+        fr = k
+    elif not k or not model.mag_is_rational(k):
+        return "in"
+    else:
+        fr = model.mag_fraction(k)
+    if fr.denominator == 1:
+        return "outside" if fr > FMAX[c] else "in"
+    if fr.numerator == 1:
+        return "outside" if fr.denominator > FMAX[c] else "in"
+    if fr > FMAX[c] or fr < FDEN[c]:
+        return "outside"
+    if fr < FMIN[c] or fr.numerator > FMAX["long double"] or fr.denominator > FMAX["long double"]:
+        return "band"
+    return "in"
+
+
+def worst(*st):
+    return "outside" if "outside" in st else ("band" if "band" in st else "in")
+
+
+def unit_pairs():
+    """(name, U1, U2, model k = U1/U2) over named / prefixed / powered / compound / dimensionless / origin-carrying
+    units: k comes from the independent unit table in vf/model.py."""
+    U = model.LIB_BY_STEM
+    P = {p[0]: model.prefix_mag(p) for p in model.ALL_PREFIXES}
+    mm = model.vmul
+
+    def q(a, b):
+        return model.vdiv(a, b)
+    m1 = {}
+    out = [
+        ("ft->in", "au::Feet", "au::Inches", q(U["feet"].mag, U["inches"].mag)),                       # 12
+        ("in->ft", "au::Inches", "au::Feet", q(U["inches"].mag, U["feet"].mag)),                       # 1/12
+        ("yd->in", "au::Yards", "au::Inches", q(U["yards"].mag, U["inches"].mag)),                     # 36
+        ("score->ft", "c06::Score", "au::Feet", model.mag_int(20)),                                    # 20: int16 no, uint16 yes
+        ("mi->in", "au::Miles", "au::Inches", q(U["miles"].mag, U["inches"].mag)),                     # 63360
+        ("km->mm", "au::Kilo<au::Meters>", "au::Milli<au::Meters>", q(P["Kilo"], P["Milli"])),         # 10^6 <= 1000225
+        ("mi->mm", "au::Miles", "au::Milli<au::Meters>", q(U["miles"].mag, P["Milli"])),               # 1609344: int32 no, uint32 yes
+        ("m->um", "au::Meters", "au::Micro<au::Meters>", q(m1, P["Micro"])),
+        ("h->s", "au::Hours", "au::Seconds", U["hours"].mag),
+        ("d->ms", "au::Days", "au::Milli<au::Seconds>", q(U["days"].mag, P["Milli"])),                 # 8.64e7
+        ("PB->b", "au::Peta<au::Bytes>", "au::Bits", mm(P["Peta"], U["bytes"].mag)),                   # 8e15: int64 no, uint64 yes
+        ("KiB->b", "au::Kibi<au::Bytes>", "au::Bits", mm(P["Kibi"], U["bytes"].mag)),                  # 8192
+        ("m^3->mm^3", "decltype(au::pow<3>(au::Meters{}))", "decltype(au::pow<3>(au::Milli<au::Meters>{}))", model.vpow(q(m1, P["Milli"]), 3)),
+        ("m^2->mm^2", "decltype(au::pow<2>(au::Meters{}))", "decltype(au::pow<2>(au::Milli<au::Meters>{}))", model.vpow(q(m1, P["Milli"]), 2)),
+        ("ft^2->in^2", "decltype(au::pow<2>(au::Feet{}))", "decltype(au::pow<2>(au::Inches{}))", model.vpow(q(U["feet"].mag, U["inches"].mag), 2)),
+        ("km/h->m/s", "decltype(au::Kilo<au::Meters>{} / au::Hours{})", "decltype(au::Meters{} / au::Seconds{})", q(P["Kilo"], U["hours"].mag)),   # 5/18
+        ("m/s->km/h", "decltype(au::Meters{} / au::Seconds{})", "decltype(au::Kilo<au::Meters>{} / au::Hours{})", q(U["hours"].mag, P["Kilo"])),   # 18/5
+        ("km/h->m/h", "decltype(au::Kilo<au::Meters>{} / au::Hours{})", "decltype(au::Meters{} / au::Hours{})", P["Kilo"]),
+        ("1->%", "au::Unos", "au::Percent", q(m1, U["percent"].mag)),                                  # 100
+        ("%->1", "au::Percent", "au::Unos", U["percent"].mag),                                         # 1/100
+        ("degC->K", "au::Celsius", "au::Kelvins", {}),                                                 # k = 1, distinct named units
+        ("K->mdegC", "au::Kelvins", "au::Milli<au::Celsius>", q(m1, P["Milli"])),
+        ("rev->deg", "au::Revolutions", "au::Degrees", q(U["revolutions"].mag, U["degrees"].mag)),     # 360 (pi cancels)
+        ("deg->rad", "au::Degrees", "au::Radians", U["degrees"].mag),                                  # pi/180
+        ("rt(m)->rt(cm)", "decltype(au::root<2>(au::Meters{}))", "decltype(au::root<2>(au::Centi<au::Meters>{}))", model.vpow(q(m1, P["Centi"]), Fr(1, 2))),   # 10
+        ("rt(m)->rt(mm)", "decltype(au::root<2>(au::Meters{}))", "decltype(au::root<2>(au::Milli<au::Meters>{}))", model.vpow(q(m1, P["Milli"]), Fr(1, 2))),   # 10^(3/2)
+        ("1/ms->Hz", "decltype(au::pow<-1>(au::Milli<au::Seconds>{}))", "au::Hertz", model.vinv(P["Milli"])),   # 1000
+        ("Hz->1/min", "au::Hertz", "decltype(au::pow<-1>(au::Minutes{}))", U["minutes"].mag),          # 60
+    ]
+    return out
+
+
+CMP = ["==", "!=", "<", "<=", ">", ">="]
+
+
+def lit(r, x):
+    if x >= 0:
+        return "static_cast<%s>(%dULL)" % (r, x)
+    if x == -(2 ** 63):
+        return "static_cast<%s>(-9223372036854775807LL - 1)" % r
+    return "static_cast<%s>(%dLL)" % (r, x)
+
+
+def i128lit(x):
+    if x >= 0:
+        return "static_cast<c06::i128>(%dULL)" % x
+    if x == -(2 ** 63):
+        return "(static_cast<c06::i128>(-9223372036854775807LL) - 1)"
+    return "static_cast<c06::i128>(%dLL)" % x
+
+
+def q_cell(kname, ukind, U1, U2, k, r1, r2, identical_unit):
+    """One Quantity cell: statements + metadata."""
+    Q1 = "au::Quantity<%s, %s>" % (U1, r1)
+    Q2 = "au::Quantity<%s, %s>" % (U2, r2)
+    rb = "double" if canon(r2) != "double" else "float"
+    QB = "au::Quantity<%s, %s>" % (U2, rb)
+    exp = policy(r1, r2, k)
+    stm = ['vf_b("conv", std::is_convertible<%s, %s>::value);' % (Q1, Q2),
+           'vf_b("ctor", std::is_constructible<%s, %s>::value);' % (Q2, Q1),
+           'vf_b("asg", std::is_assignable<%s &, %s>::value);' % (Q2, Q1),
+           'vf_b("pick", c06::Picks<%s, %s>::value);' % (Q1, Q2),
+           'vf_b("common", c06::HasCommon<%s, %s>::value);' % (Q1, Q2),
+           # cv/ref-qualified sources and direct-initialisation must answer the same question
+           'vf_i("cv", (std::is_convertible<const %s &, %s>::value ? 1 : 0) + (std::is_convertible<%s &&, %s>::value ? 2 : 0) + '
+           '(std::is_convertible<const %s, %s>::value ? 4 : 0) + (std::is_constructible<%s, const %s &>::value ? 8 : 0) + '
+           '(std::is_convertible<%s &, %s>::value ? 16 : 0));' % (Q1, Q2, Q1, Q2, Q1, Q2, Q2, Q1, Q1, Q2),
+           'vf_i("pick2", c06::Pick2<%s, %s, %s>::value);' % (Q1, Q2, QB)]
+    # model of the two-overload call: exact match wins, one viable user conversion is taken, two are ambiguous
+    if identical_unit and r1 == r2:
+        p2 = 1
+    elif identical_unit and r1 == rb:
+        p2 = 2
+    else:
+        p2 = 0 if exp else 2
+    m = {"kind": "q", "k": kname, "ukind": ukind, "r1": r1, "r2": r2, "exp": exp, "pick2": p2, "conv_stmts": []}
+    c1, c2 = canon(r1), canon(r2)
+    if float_status(core.common_rep(c1, rb), k) != "in":
+        # the floating twin overload itself could not perform its (permitted) conversion: ask pick2 only where the twin is sound
+        stm = [s_ for s_ in stm if 'vf_i("pick2"' not in s_]
+    if exp and c2 in I8 and c1 in I8:
+        kk = int(model.mag_fraction(k)) if k else 1
+        lo = max(tmin(c1), -(-tmin(c2) // kk) if tmin(c2) < 0 else 0)
+        hi = min(tmax(c1), tmax(c2) // kk)
+        # every input that does not overflow must convert exactly; the two ends also in a constant expression
+        stm.append('{ long long n = 0, bad = 0; c06::i128 first = 0; using V = c06::Val<%s, %s, %s>; '
+                   'V::sweep(%s, %s, %s, n, bad, first); constexpr bool cx = V::one(%s, %s) && V::one(%s, %s); '
+                   'vf_i("n", n); vf_i("bad", bad); vf_s("first", c06::i128s(first)); vf_b("cx", cx); }'
+                   % (Q2, U1, r1, i128lit(lo), i128lit(hi), i128lit(kk), lit(r1, lo), i128lit(kk), lit(r1, hi), i128lit(kk)))
+        m["vals"] = (lo, hi, kk)
+        m["conv_stmts"].append(len(stm) - 1)
+    elif exp and c2 in F3:
+        st = float_status(core.common_rep(c1, c2), k)
+        m["fstatus"] = st
+        if st == "in":
+            stm.append('{ %s q2 = au::make_quantity<%s>(static_cast<%s>(1)); (void)q2; vf_b("did", true); }' % (Q2, U1, r1))
+            m["conv_stmts"].append(len(stm) - 1)
+        else:
+            # the model expects the body of this permitted conversion not to compile: perform it, and the overload
+            # resolution questions (g++ instantiates constexpr bodies for them), in probes of their own
+            m["probes"] = [("ctor", "%s q2 = au::make_quantity<%s>(static_cast<%s>(1)); (void)q2;" % (Q2, U1, r1)),
+                           ("pick", 'static_assert(c06::Picks<%s, %s>::value, "");' % (Q1, Q2)),
+                           ("pick2", 'static_assert(c06::Pick2<%s, %s, %s>::value == %d, "");' % (Q1, Q2, QB, p2))]
+            stm = [s_ for s_ in stm if 'vf_b("pick"' not in s_ and 'vf_i("pick2"' not in s_]
+            m["nopick"] = True
+    return stm, m
+
+
 def check(run):
     tier = run.tier
-    grid = ratio_grid(tier)
-    cfgs = core.CORNERS if tier == "quick" else core.CFG6
+    quick = tier == "quick"
+    grid = ratio_grid(tier) + extreme_grid(tier)
+    upairs = unit_pairs()
+    cfgs = core.CORNERS if quick else core.CORNERS + [c for c in core.CFG6 if c not in core.CORNERS]
     recs, meta = [], {}
-    rid = 0
-    # ---- Quantity cells
+
+    def add(stm, m):
+        recs.append((len(recs), stm))
+        meta[len(recs) - 1] = m
+
+    # ---- Quantity cells: Meters*k -> Meters over the ratio grid, all 11x11 rep pairs
     for (kname, k) in grid:
         u1s = [("scaled", src_unit(k))]
         if not k:
@@ -101,30 +324,21 @@ def check(run):
         for (ukind, U1) in u1s:
             for r1 in R11:
                 for r2 in R11:
-                    Q1 = "au::Quantity<%s, %s>" % (U1, r1)
-                    Q2 = "au::Quantity<au::Meters, %s>" % r2
-                    exp = policy(r1, r2, k)
-                    stm = ['vf_b("conv", std::is_convertible<%s, %s>::value);' % (Q1, Q2),
-                           'vf_b("ctor", std::is_constructible<%s, %s>::value);' % (Q2, Q1),
-                           'vf_b("asg", std::is_assignable<%s &, %s>::value);' % (Q2, Q1),
-                           'vf_b("pick", c06::Picks<%s, %s>::value);' % (Q1, Q2),
-                           'vf_b("common", c06::HasCommon<%s, %s>::value);' % (Q1, Q2)]
-                    m = {"kind": "q", "k": kname, "ukind": ukind, "r1": r1, "r2": r2, "exp": exp}
-                    if exp and r2 in I8 and r1 in I8:
-                        kk = int(model.mag_fraction(k)) if k else 1
-                        lo = max(-2147, tmin(r1), -(-tmin(r2) // kk) if tmin(r2) < 0 else 0)
-                        hi = min(2147, tmax(r1), tmax(r2) // kk)
-                        # every |x| <= 2147 that both reps can hold must convert exactly
-                        stm.append(
-                            '{ long long bad = 0, first = 0, n = 0; for (long long x = %d; x <= %d; ++x) { '
-                            '%s q2 = au::make_quantity<%s>(static_cast<%s>(x)); ++n; '
-                            'if (static_cast<__int128>(q2.in(au::Meters{})) != static_cast<__int128>(x) * %s) '
-                            '{ if (!bad) first = x; ++bad; } } vf_i("n", n); vf_i("bad", bad); vf_i("first", first); }'
-                            % (lo, hi, Q2, U1, r1, ("(__int128)%dLL" % kk)))
-                        m["vals"] = (lo, hi, kk)
-                    recs.append((rid, stm))
-                    meta[rid] = m
-                    rid += 1
+                    add(*q_cell(kname, ukind, U1, "au::Meters", k, r1, r2, not k and ukind == "scaled"))
+    # ---- named / prefixed / powered / compound / dimensionless / origin-carrying unit pairs
+    up_r1 = ["int8_t", "uint16_t", "int32_t", "uint64_t", "float"] if quick else R11
+    for (name, U1, U2, k) in upairs:
+        for r1 in up_r1:
+            for r2 in R11:
+                add(*q_cell(name, "pair", U1, U2, k, r1, r2, False))
+    # ---- long long / unsigned long long (distinct types of the same width as int64_t / uint64_t)
+    th64, thu64 = tmax("int64_t") // 2147, tmax("uint64_t") // 2147
+    xl_pairs = [(a, b) for a in XL for b in XL + ["int32_t", "int64_t", "uint64_t", "double"]]
+    xl_pairs += [(b, a) for a in XL for b in ["int32_t", "int64_t", "uint64_t", "double"]]
+    for kk in (1, 10 ** 9, th64, th64 + 1, thu64, thu64 + 1):
+        k = model.mag_int(kk) if kk > 1 else {}
+        for (r1, r2) in xl_pairs:
+            add(*q_cell(str(kk), "scaled", src_unit(k), "au::Meters", k, r1, r2, not k))
     # ---- QuantityPoint cells
     pts = [("K->mK", "au::Kelvins", "au::Milli<au::Kelvins>", model.mag_int(1000), True),
            ("mK->K", "au::Milli<au::Kelvins>", "au::Kelvins", model.mag_ratio(1, 1000), True),
@@ -146,26 +360,189 @@ def check(run):
             for r2 in R11:
                 P1 = "au::QuantityPoint<%s, %s>" % (U1, r1)
                 P2 = "au::QuantityPoint<%s, %s>" % (U2, r2)
-                stm = ['vf_b("conv", std::is_convertible<%s, %s>::value);' % (P1, P2),
-                       'vf_b("ctor", std::is_constructible<%s, %s>::value);' % (P2, P1)]
-                recs.append((rid, stm))
-                meta[rid] = {"kind": "p", "name": name, "r1": r1, "r2": r2, "qexp": policy(r1, r2, k),
-                             "same_origin": same_origin}
-                rid += 1
+                add(['vf_b("conv", std::is_convertible<%s, %s>::value);' % (P1, P2),
+                     'vf_b("ctor", std::is_constructible<%s, %s>::value);' % (P2, P1)],
+                    {"kind": "p", "name": name, "r1": r1, "r2": r2, "qexp": policy(r1, r2, k), "same_origin": same_origin})
                 # overload resolution in its own record, so that a hard error is attributed to it alone
-                recs.append((rid, ['vf_b("pick", c06::Picks<%s, %s>::value);' % (P1, P2),
-                                   'vf_b("conv", std::is_convertible<%s, %s>::value);' % (P1, P2)]))
-                meta[rid] = {"kind": "pp", "name": name, "r1": r1, "r2": r2}
-                rid += 1
+                add(['vf_b("pick", c06::Picks<%s, %s>::value);' % (P1, P2),
+                     'vf_b("conv", std::is_convertible<%s, %s>::value);' % (P1, P2)],
+                    {"kind": "pp", "name": name, "r1": r1, "r2": r2})
     ncells = len(recs)
-    evals = 0
+    cnt = {"common_type_absent_for_forbidden_cell": 0, "point_cells_stricter_than_quantity_predicate": 0,
+           "float_factor_band_not_judged": 0, "values_converted": 0, "permitted_float_conversions_performed": 0,
+           "constexpr_boundary_conversions": 0}
     both = set()
     more_permissive = set()
-    for cfg in cfgs:
+
+    def qdesc(m):
+        return "k=%s:%s:%s->%s" % (m["k"], m["ukind"], m["r1"], m["r2"])
+
+    dbg = os.environ.get("VERIF_DEBUG")
+
+    def cpu():
+        import resource
+        ru = resource.getrusage(resource.RUSAGE_CHILDREN)
+        return "cpu=%ds" % (ru.ru_utime + ru.ru_stime)
+    # ---- probes: conversions the model expects not to compile although permitted, unit-only forms, mixed-unit operators
+    probes, pmeta = [], {}
+
+    def probe(code, want, what, batch_as=None, dedup=None, only20=False, batch_clang=None):
+        # want = what the statement demands; batch_as = the verdict the model predicts (only used to batch efficiently)
+        pid = len(probes)
+        probes.append(core.Probe(pid, code, batch_as or want, {"dedup": dedup} if dedup else {}))
+        pmeta[pid] = {"want": want, "what": what, "only20": only20, "batch": (batch_as or want, batch_clang or batch_as or want)}
+
+    for r in range(ncells):
+        m = meta[r]
+        if m.get("probes"):
+            if m["fstatus"] == "band":
+                cnt["float_factor_band_not_judged"] += 1
+                continue
+            c = core.common_rep(canon(m["r1"]), canon(m["r2"]))
+            for (what, code) in m["probes"]:
+                # (overload resolution alone instantiates the constructor body under g++ only; an ambiguous call under neither)
+                probe(code, "accept", "%s %s factor-outside-%s" % (what, qdesc(m), c), batch_as="accept" if what == "pick2" else "reject",
+                      dedup="out:%s:%s" % (m["k"], c), batch_clang="reject" if what == "ctor" else "accept")
+    FORMS = [("as(U)", "(void)q.as(%s{});"), ("in(U)", "(void)q.in(%s{});"), ("as(maker)", "(void)q.as(au::QuantityMaker<%s>{});"),
+             ("in(maker)", "(void)q.in(au::QuantityMaker<%s>{});"), ("as(symbol)", "(void)q.as(au::SymbolFor<%s>{});"),
+             ("in(symbol)", "(void)q.in(au::SymbolFor<%s>{});"), ("as(constant)", "(void)q.as(au::make_constant(%s{}));")]
+    nurej = [0]
+    ucells = [(kname, src_unit(k), "au::Meters", k) for (kname, k) in grid] + [(n, a, b, k) for (n, a, b, k) in upairs]
+    for (kname, U1, U2, k) in ucells:
+        for r in R11:
+            exp = policy(r, r, k)
+            decl = "auto q = au::make_quantity<%s>(static_cast<%s>(1)); " % (U1, r)
+            if exp:
+                st = float_status(r, k) if r in F3 else "in"
+                if st == "band":
+                    cnt["float_factor_band_not_judged"] += 1
+                    continue
+                code = decl + " ".join(f % U2 for _, f in FORMS)
+                if st == "outside":
+                    probe(code, "accept", "unit-only all-forms k=%s rep=%s factor-outside-%s" % (kname, r, r), batch_as="reject", dedup="out:%s:%s" % (kname, r))
+                else:
+                    probe(code, "accept", "unit-only all-forms k=%s rep=%s" % (kname, r))
+            else:
+                forms = FORMS if not quick else [FORMS[0], FORMS[1 + nurej[0] % 6]]
+                nurej[0] += 1
+                for fname, f in forms:
+                    probe(decl + f % U2, "reject", "unit-only %s k=%s rep=%s" % (fname, kname, r), dedup="k:%s:%s" % (kname, r))
+    rp = [("int16_t", "int32_t"), ("int32_t", "int16_t"), ("int32_t", "int64_t"), ("int64_t", "int32_t"),
+          ("uint16_t", "uint32_t"), ("uint32_t", "uint64_t"), ("uint64_t", "uint32_t"), ("int32_t", "int32_t"),
+          ("uint64_t", "uint64_t"), ("int8_t", "int8_t"), ("uint8_t", "int32_t"), ("int32_t", "double"),
+          ("float", "int64_t"), ("float", "double"), ("int64_t", "uint64_t"), ("uint32_t", "int32_t"),
+          ("int8_t", "int16_t"), ("uint8_t", "uint16_t"), ("int16_t", "uint16_t"), ("float", "float")]
+    rp_up = [("int16_t", "int32_t"), ("uint32_t", "int32_t"), ("int64_t", "uint64_t"), ("uint8_t", "uint16_t"), ("float", "int64_t"),
+             ("int64_t", "int64_t")]
+    rp_all = [(a, b) for a in R11 for b in R11]
+    full = set(rp)
+    if not quick:
+        full |= {(a, b) for (a, b) in rp_all if (R11.index(a) + 3 * R11.index(b)) % 8 == 0}
+        rp_up = rp
+    nrejcell, ncomp = [0], [0]
+    # thorough: all 121 rep pairs (reciprocal ratios, the mirror images of the integer ones: the 20 selected pairs)
+    mcells = [(kname, src_unit(k), "au::Meters", k, (rp if (quick or kname.startswith("1/")) else rp_all)) for (kname, k) in grid]
+    mcells += [(n, a, b, k, rp_up) for (n, a, b, k) in upairs]
+    for (kname, U1, U2, k, pairs) in mcells:
+        if model.mag_is_rational(k):
+            fr = model.mag_fraction(k) if k else Fr(1)
+            n, dd = fr.numerator, fr.denominator
+        else:
+            n = dd = None
+        for (r1, r2) in pairs:
+            c = core.common_rep(r1, r2)
+            ints = c in I8
+            if c in F3:
+                exp = True
+            elif n is None:
+                exp = False
+            else:
+                exp = all(x == 1 or 2147 * x <= tmax(c) for x in (n, dd))
+            decl = "auto a = au::make_quantity<%s>(static_cast<%s>(1)); auto b = au::make_quantity<%s>(static_cast<%s>(1)); " % (U1, r1, U2, r2)
+            cell = "k=%s reps=%s,%s" % (kname, r1, r2)
+            fst = "in"       # both operands are scaled to the common unit by the integers n and dd, in the common rep
+            if c in F3 and n:
+                fst = worst(float_status(c, Fr(n)), float_status(c, Fr(dd)))
+            if (r1, r2) not in full:
+                # (thorough, remaining rep pairs) two root operators, both directions in one probe
+                if fst == "in":
+                    for op in ("==", "+"):
+                        probe(decl + "(void)(a %s b); (void)(b %s a);" % (op, op), "accept" if exp else "reject", "mixed %s %s" % (op, cell))
+                continue
+            sym = [(op, "(void)(a %s b);" % op, "(void)(b %s a);" % op, False) for op in CMP + ["+", "-"]]
+            sym += [("min", "(void)min(a, b);", "(void)min(b, a);", False), ("max", "(void)max(a, b);", "(void)max(b, a);", False),
+                    ("clamp", "(void)clamp(a, b, b);", "(void)clamp(b, a, a);", False), ("clamp3", "(void)clamp(a, a, b);", "(void)clamp(b, a, b);", False)]
+            if ints:
+                sym.append(("%", "(void)(a % b);", "(void)(b % a);", False))
+            sym.append(("<=>", "(void)(a <=> b);", "(void)(b <=> a);", True))
+            if exp:
+                st = fst
+                if st == "band":
+                    cnt["float_factor_band_not_judged"] += 1
+                else:
+                    for only20 in (False, True):
+                        body = " ".join(x[1] + " " + x[2] for x in sym if x[3] == only20)
+                        if st == "outside":
+                            probe(decl + body, "accept", "mixed all-ops%s %s factor-outside-%s" % ("-20" if only20 else "", cell, c),
+                                  batch_as="reject", dedup="out:%s:%s" % (kname, c), only20=only20)
+                        else:
+                            probe(decl + body, "accept", "mixed all-ops%s %s" % ("-20" if only20 else "", cell), only20=only20)
+            else:
+                # every rejection is demanded per operator and per operand order (one probe each).  quick: the four root
+                # operators in alternating order plus three of the other ~20 operator/order combinations, rotating with the cell
+                # index (every combination on every 7th forbidden cell); thorough: the root operators in both orders plus eight
+                dk = "k:%s:%s" % (kname, c)
+                directed = [(op, d, code, o20) for (op, ab, ba, o20) in sym for (d, code) in (("a%sb", ab), ("b%sa", ba))]
+                root = [x for x in directed if x[0] in ("==", "<", "+", "-")]
+                rest = [x for x in directed if x[0] not in ("==", "<", "+", "-")]
+                if quick:
+                    chosen = [root[2 * j + (nrejcell[0] + j) % 2] for j in range(4)]
+                    chosen += [rest[(3 * nrejcell[0] + t) % len(rest)] for t in range(3)]
+                else:
+                    chosen = root + [rest[(8 * nrejcell[0] + t) % len(rest)] for t in range(8)]
+                nrejcell[0] += 1
+                for (op, d, code, o20) in chosen:
+                    probe(decl + code, "reject", "mixed %s %s" % (d % op, cell), dedup=dk, only20=o20)
+            # compound assignment asks the asymmetric question (operand -> type of the left-hand side)
+            comp = []
+            for (lhs, rhs, rs, rd, kk_) in (("a", "b", r2, r1, model.vinv(k)), ("b", "a", r1, r2, k)):
+                e2 = policy(rs, rd, kk_)
+                st = float_status(core.common_rep(rs, rd), kk_) if (e2 and rd in F3) else "in"
+                if st == "band":
+                    cnt["float_factor_band_not_judged"] += 1
+                    continue
+                for op in ("+=", "-="):
+                    comp.append((lhs, rhs, op, e2, st, core.common_rep(rs, rd)))
+            if quick:
+                comp = [x for i, x in enumerate(comp) if (i + ncomp[0]) % 2 == 0]
+            ncomp[0] += 1
+            for (lhs, rhs, op, e2, st, cc) in comp:
+                what = "mixed %s%s%s %s" % (lhs, op, rhs, cell)
+                if e2 and st == "outside":
+                    probe(decl + "%s %s %s;" % (lhs, op, rhs), "accept", what + " factor-outside-%s" % cc, batch_as="reject", dedup="out:%s:%s" % (kname, cc))
+                else:
+                    probe(decl + "%s %s %s;" % (lhs, op, rhs), "accept" if e2 else "reject", what)
+    acc = {"evals": 0, "nacc": 0, "nrej": 0, "nprog": 0}
+
+    def do_dump(cfg):
+        if dbg:
+            print("dump", cfg, len(recs), round(run.elapsed()), cpu(), flush=True)
         res, failed = psx.run_dump(cfg, recs, os.path.join(run.wd, cfg.name), "c06", PREAMBLE,
                                    flags=cflags(cfg), chunk=max(40, len(recs) // (core.NCPU * 3) + 1))
+        # a failing record that performs a conversion is re-run without it: is *asking* the hard error, or *doing*?
+        retry = [(r, [s for i, s in enumerate(recs[r][1]) if i not in meta[r]["conv_stmts"]])
+                 for r in failed if meta[r].get("conv_stmts")]
+        asking_ok = {}
+        if retry:
+            asking_ok, _ = psx.run_dump(cfg, retry, os.path.join(run.wd, cfg.name), "c06retry", PREAMBLE, flags=cflags(cfg), chunk=40)
+            res.update(asking_ok)
         for r, diag in failed.items():
             m = meta[r]
+            if r in asking_ok:
+                key = "C06:permitted-does-not-compile:ctor:%s" % qdesc(m)
+                run.violation(key, "%s: the predicate permits %s and every trait answers, but performing the conversion does not compile: %s" % (cfg, qdesc(m), diag),
+                              run.write_replay(key, {"kind": "program", "config": str(cfg), "stmts": recs[r][1], "diag": diag}))
+                continue
             desc = ("%s:%s:%s->%s" % (m.get("k", m.get("name")), m.get("ukind", "pt"), m["r1"], m["r2"]))
             if m["kind"] == "pp":
                 desc = "overload-resolution:" + desc
@@ -175,105 +552,134 @@ def check(run):
                                                  "config": str(cfg), "stmts": recs[r][1], "diag": diag}))
         for r, o in res.items():
             m = meta[r]
-            evals += 1
+            acc["evals"] += 1
             if m["kind"] == "q":
-                desc = "k=%s:%s:%s->%s" % (m["k"], m["ukind"], m["r1"], m["r2"])
+                desc = qdesc(m)
+
+                def viol(kind, what):
+                    key = "C06:%s:%s" % (kind, desc)
+                    run.violation(key, "%s: %s" % (cfg, what),
+                                  run.write_replay(key, {"kind": "program", "config": str(cfg), "observed": o, "stmts": recs[r][1]}))
                 for f in ("conv", "ctor", "asg", "pick"):
-                    if o[f] != m["exp"]:
-                        key = "C06:policy:%s:%s" % (f, desc)
-                        run.violation(key, "%s: %s says %s but the documented predicate is %s for %s" % (cfg, f, o[f], m["exp"], desc),
-                                      run.write_replay(key, {"kind": "program", "config": str(cfg), "observed": o, "stmts": recs[r][1]}))
+                    if f in o and o[f] != m["exp"]:
+                        viol("policy:%s" % f, "%s says %s but the documented predicate is %s for %s" % (f, o[f], m["exp"], desc))
+                if o["cv"] != (31 if m["exp"] else 0):
+                    viol("policy:cvref", "const&/&&/const/direct-init/lvalue sources answer %d (bit set) but the documented predicate is %s for %s" % (o["cv"], m["exp"], desc))
+                if "pick2" in o and o["pick2"] != m["pick2"]:
+                    viol("pick2", "call with two Quantity overloads (target, floating twin) resolves to %d, model %d (0 = ill-formed, SFINAE-friendly) for %s" % (o["pick2"], m["pick2"], desc))
                 if not o["common"]:
-                    run.violation("C06:common-type-missing:%s" % desc, "%s: std::common_type missing for same-dimension pair %s" % (cfg, desc))
+                    if m["exp"]:
+                        viol("common-type-missing", "std::common_type missing although the conversion is permitted: %s" % desc)
+                    else:
+                        cnt["common_type_absent_for_forbidden_cell"] += 1   # the statement's literal reading allows this
                 if "bad" in o:
-                    evals += o["n"]
+                    acc["evals"] += o["n"]
+                    cnt["values_converted"] += o["n"]
+                    cnt["constexpr_boundary_conversions"] += 2
                     if o["bad"]:
-                        run.violation("C06:value:%s:x=%d" % (desc, o["first"]),
-                                      "%s: permitted conversion %s is not x*k for x=%d (%d bad of %d)" % (cfg, desc, o["first"], o["bad"], o["n"]))
+                        viol("value", "permitted conversion %s is not x*k for x=%s (%d bad of %d)" % (desc, o["first"], o["bad"], o["n"]))
+                        # keep the historical key shape too
+                    if not o["cx"]:
+                        viol("value-constexpr", "permitted conversion %s of an end of the non-overflowing range [%d,%d] is not exact in a constant expression" % ((desc,) + m["vals"][:2]))
+                if o.get("did"):
+                    cnt["permitted_float_conversions_performed"] += 1
                 both.add((desc, o["conv"]))
             elif m["kind"] == "pp":
                 desc = "%s:%s->%s" % (m["name"], m["r1"], m["r2"])
                 if o["pick"] != o["conv"]:
-                    run.violation("C06:point-pick:%s" % desc, "%s: overload resolution and is_convertible disagree for point conversion %s: %s" % (cfg, desc, o))
+                    run.violation("C06:point-pick:%s" % desc, "%s: overload resolution and is_convertible disagree for point conversion %s: %s" % (cfg, desc, o),
+                                  run.write_replay("C06:point-pick:%s" % desc, {"kind": "program", "config": str(cfg), "observed": o, "stmts": recs[r][1]}))
             else:
                 desc = "%s:%s->%s" % (m["name"], m["r1"], m["r2"])
+                rp_ = {"kind": "program", "config": str(cfg), "observed": o, "stmts": recs[r][1]}
                 if o["conv"] != o["ctor"]:
-                    run.violation("C06:point-inconsistent:%s" % desc, "%s: is_convertible/is_constructible disagree for %s: %s" % (cfg, desc, o))
-                if m["same_origin"] and o["conv"] != m["qexp"]:
-                    run.violation("C06:point-policy:%s" % desc, "%s: equal-origin point conversion %s is %s but the quantity predicate is %s" % (cfg, desc, o["conv"], m["qexp"]))
+                    run.violation("C06:point-inconsistent:%s" % desc, "%s: is_convertible/is_constructible disagree for %s: %s" % (cfg, desc, o),
+                                  run.write_replay("C06:point-inconsistent:%s" % desc, rp_))
+                if m["same_origin"] and o["conv"] and not m["qexp"]:
+                    run.violation("C06:point-policy:%s" % desc, "%s: equal-origin point conversion %s is implicit but the quantity predicate forbids its difference type" % (cfg, desc),
+                                  run.write_replay("C06:point-policy:%s" % desc, rp_))
+                if m["same_origin"] and not o["conv"] and m["qexp"]:
+                    cnt["point_cells_stricter_than_quantity_predicate"] += 1   # the statement defines no predicate for points
                 if not m["same_origin"] and o["conv"] and not m["qexp"]:
                     more_permissive.add(desc)   # recorded, not judged: the statement defines no predicate for points
-    # ---- unit-only .as/.in and mixed-unit operators: accept/reject probes
-    probes, pmeta = [], {}
-    pid = 0
-    for (kname, k) in grid:
-        U1 = src_unit(k)
-        for r in R11:
-            exp = policy(r, r, k)
-            for form in ("(void)q.as(au::Meters{});", "(void)q.in(au::Meters{});", "(void)q.as(au::meters);"):
-                code = "auto q = au::make_quantity<%s>(static_cast<%s>(1)); %s" % (U1, r, form)
-                probes.append(core.Probe(pid, code, "accept" if exp else "reject"))
-                pmeta[pid] = "unit-only %s k=%s rep=%s" % (form.split(".")[1].split("(")[0], kname, r)
-                pid += 1
-    rp = [("int16_t", "int32_t"), ("int32_t", "int16_t"), ("int32_t", "int64_t"), ("int64_t", "int32_t"),
-          ("uint16_t", "uint32_t"), ("uint32_t", "uint64_t"), ("uint64_t", "uint32_t"), ("int32_t", "int32_t"),
-          ("uint64_t", "uint64_t"), ("int8_t", "int8_t"), ("uint8_t", "int32_t"), ("int32_t", "double"),
-          ("float", "int64_t"), ("float", "double"), ("int64_t", "uint64_t"), ("uint32_t", "int32_t")]
-    if tier == "thorough":
-        rp = [(a, b) for a in R11 for b in R11]
-    for (kname, k) in grid:
-        U1 = src_unit(k)
-        if model.mag_is_rational(k):
-            fr = model.mag_fraction(k) if k else Fr(1)
-            n, dd = fr.numerator, fr.denominator
-        else:
-            n = dd = None
-        for (r1, r2) in rp:
-            c = core.common_rep(r1, r2)
-            if c in F3:
-                exp = True
-            elif n is None:
-                exp = False
-            else:
-                exp = all(x == 1 or 2147 * x <= tmax(c) for x in (n, dd))
-            for op in ("==", "<", "+", "-"):
-                code = "auto a = au::make_quantity<%s>(static_cast<%s>(1)); auto b = au::meters(static_cast<%s>(1)); (void)(a %s b); (void)(b %s a);" % (U1, r1, r2, op, op)
-                probes.append(core.Probe(pid, code, "accept" if exp else "reject"))
-                pmeta[pid] = "mixed %s k=%s reps=%s,%s" % (op, kname, r1, r2)
-                pid += 1
-    nacc = nrej = 0
-    for cfg in cfgs:
-        res, srcs = core.run_probes(cfg, probes, os.path.join(run.wd, "probes_" + cfg.name), "c06p", PREAMBLE, flags=cflags(cfg))
-        for p in probes:
+
+    def do_probes(cfg, only):
+        # operator<=> exists only from C++20 on: its probes run under the C++20 configurations only
+        is20 = cfg.std == "c++20"
+        sel = [p for p in probes if (pmeta[p.pid]["only20"] <= is20) and (only is None or pmeta[p.pid]["only20"])]
+        for p in sel:
+            p.expect = pmeta[p.pid]["batch"][1 if cfg.is_clang else 0]
+        if dbg:
+            print("probes", cfg, len(sel), sum(1 for p in sel if p.expect == "reject"), round(run.elapsed()), cpu(), dict(core.STATS), flush=True)
+        res, srcs = core.run_probes(cfg, sel, os.path.join(run.wd, "probes_" + cfg.name), "c06p", PREAMBLE, flags=cflags(cfg))
+        acc["nprog"] += len(sel)
+        for p in sel:
             v, diag = res[p.pid]
-            evals += 1
-            nacc += v == "accept"
-            nrej += v == "reject"
-            if v != p.expect:
-                key = "C06:%s:%s" % ("unexpected-" + v, pmeta[p.pid])
-                run.violation(key, "%s: `%s` is %sed but the documented predicate says %s (%s)" % (cfg, p.code, v, p.expect, diag),
-                              run.write_replay(key, {"kind": "program", "config": str(cfg), "code": p.code, "expected": p.expect, "observed": v, "diag": diag}))
+            pm = pmeta[p.pid]
+            acc["evals"] += 1
+            acc["nacc"] += v == "accept"
+            acc["nrej"] += v == "reject"
+            if v != pm["want"]:
+                key = "C06:%s:%s" % ("unexpected-" + v, pm["what"])
+                run.violation(key, "%s: `%s` is %sed but the documented predicate says %s (%s)" % (cfg, p.code, v, pm["want"], diag),
+                              run.write_replay(key, {"kind": "program", "config": str(cfg), "code": p.code, "expected": pm["want"], "observed": v, "diag": diag}))
+
+    if os.environ.get("C06_COUNT"):
+        print("records", len(recs), "probes", len(probes), "reject-batched", sum(1 for p in probes if p.expect == "reject"))
+        raise SystemExit(0)
+    # development aid (mutation demonstrations): C06_PARTS=cells|probes runs one half only; evidence then says so
+    parts = os.environ.get("C06_PARTS", "")
+    # thorough: corners first; a further configuration is started only if the time left covers it (measured on the previous one)
+    done, per_cfg = [], None
+    for cfg in cfgs:
+        if per_cfg is not None and run.time_left() < 1.3 * per_cfg:
+            break
+        t0 = run.elapsed()
+        if parts in ("", "cells"):
+            do_dump(cfg)
+        if parts in ("", "probes"):
+            do_probes(cfg, None)
+        done.append(cfg)
+        per_cfg = run.elapsed() - t0
+    if quick and parts in ("", "probes"):
+        do_probes(core.GXX20, True)      # quick: g++/c++20 for the operator<=> probes alone
+    if dbg:
+        print("end", round(run.elapsed()), cpu(), dict(core.STATS), flush=True)
+    evals, nacc, nrej, nprog = acc["evals"], acc["nacc"], acc["nrej"], acc["nprog"]
+    complete = len(done) == len(cfgs) and not parts
     descs = {}
     for d_, v in both:
         descs.setdefault(d_.split(":", 1)[0], set()).add(v)
     nontriv = sum(1 for v in descs.values() if len(v) == 2)
     run.cov.update({
-        "evaluations": evals, "programs": (ncells + len(probes)) * len(cfgs),
+        "evaluations": evals, "programs": ncells * len(done) + nprog,
         "cells": ncells, "probes": len(probes), "probe_accepts": nacc, "probe_rejects": nrej,
-        "ratios": [g[0] for g in grid], "configs": [str(c) for c in cfgs],
+        "ratios": [g[0] for g in grid], "unit_pairs": [u[0] for u in upairs], "configs": [str(c) for c in done] + (["%s (operator<=> probes only)" % core.GXX20] if quick else []),
         "distinct_nontrivial": nontriv,
         "point_cells_more_permissive_than_difference_type": len(more_permissive),
         "rule": "cells = (R1,R2) in 11x11 arithmetic reps x unit ratio k from a grid straddling every rep's 2147-threshold and maximum "
-                "(plus reciprocals, rationals, pi, sqrt2, factors no rep can hold) x {Quantity, QuantityPoint with equal/different origins}; "
-                "each cell evaluates is_convertible/is_constructible/is_assignable/overload pick/common_type in a TU that must compile (totality); "
-                "unit-only .as/.in and mixed-unit ==,<,+,- are accept/reject probes; permitted integral cells convert every |x|<=2147 both reps hold. "
-                "distinct_nontrivial = number of ratios k for which both a permitted and a forbidden (R1,R2) cell were observed.",
-        "exhaustive": True, "exhaustive_note": "the stated finite grid is enumerated completely; ratios outside the grid are not covered",
+                "(plus reciprocals, rationals, pi, sqrt2, factors no rep can hold, factors outside float/double/long double) x {Quantity, QuantityPoint with equal/different origins}; "
+                "plus an enumerated alphabet of named/prefixed/powered/compound/dimensionless/origin-carrying unit pairs (quick: 5 source reps x 11 target reps) "
+                "and long long / unsigned long long cells; each cell evaluates is_convertible/is_constructible/is_assignable, const&/&&/const/lvalue sources, "
+                "overload pick against an ellipsis and against a floating twin overload, and common_type in a TU that must compile (totality); "
+                "every permitted cell performs the conversion: integral targets convert every |x|<=2147, the neighbourhoods of both ends of the non-overflowing "
+                "input range, of their halves and thirds and the lattice +-2^j+{-1,0,1} exactly (ends also in a constant expression), floating targets convert once; "
+                "unit-only .as/.in with unit, maker, symbol and constant slots and mixed-unit ==,!=,<,<=,>,>=,<=>,+,-,%,min,max,clamp (both operand orders) and +=,-= "
+                "(asymmetric predicate) are accept/reject probes. distinct_nontrivial = number of ratios k for which both a permitted and a forbidden (R1,R2) cell were observed.",
+        "exhaustive": complete, "exhaustive_note": "the stated finite grid is enumerated completely; ratios outside the grid are not covered; for forbidden mixed-unit cells the "
+                                                   "four root operators are probed on every cell (quick: alternating operand order) and the other operator/order "
+                                                   "combinations follow a fixed rotation over the cell index (quick 3, thorough 8 per cell), unit-only slot forms likewise"
+                                                   + ("" if complete else "; stopped before configurations %s (time budget)" % [str(c) for c in cfgs[len(done):]]),
         "samples": [{"cell": "k=%s %s->%s" % (meta[r]["k"], meta[r]["r1"], meta[r]["r2"]), "expected_implicit": meta[r]["exp"]}
                     for r in list(range(0, ncells, max(1, ncells // 6)))[:6] if meta[r]["kind"] == "q"],
     })
+    run.cov.update(cnt)
     run.assumptions += ["documented predicate transcribed in policy(): floating target, or integral source and integer k with 2147*k <= max(R2), or k == 1 between integral reps",
-                        "for QuantityPoint only totality, agreement with the Quantity predicate for equal origins and 'never more permissive than the difference type' are judged"]
+                        "for QuantityPoint only totality, 'equal origins: never implicit where the Quantity predicate forbids the difference type' and "
+                        "'never more permissive than the difference type' (recorded) are judged; stricter point cells are counted",
+                        "std::common_type must exist for permitted cells; its absence for forbidden cells is counted, not judged (either reading of the statement)",
+                        "min, max, clamp and % are judged as members of the mixed-unit comparison/addition family (they convert both operands to the common type)",
+                        "a permitted conversion whose factor is representable in the floating type it is computed in must compile; factors representable only as denormals are not judged"]
 
 
 def replay(path):
@@ -294,7 +700,10 @@ def replay(path):
         return 0
     res, failed = psx.run_dump(cfg, [(0, r["stmts"])], wd, "rp", PREAMBLE, flags=cflags(cfg))
     print("observed:", res.get(0), "failed:", failed)
-    if failed or (r.get("observed") and res.get(0) == r["observed"]):
+
+    def strip(o):
+        return {k: v for k, v in (o or {}).items() if k != "id"}
+    if failed or (r.get("observed") and strip(res.get(0)) == strip(r["observed"])):
         print("VIOLATION property=C06 replay=%s" % path)
         return 1
     return 0
